@@ -33,7 +33,7 @@ sequences over a wider alphabet; (S) one request to Files::new(\"/\", root) on a
 the root): URL paths from dot segments, encoded dots/slashes/backslashes/NUL/UTF-8/invalid UTF-8, double encodings and names \
 of real files × config flags (hidden, index, listing, redirect), every Range shape (first-last, first-, -suffix, multiple, \
 whitespace, malformed, overflowing) × boundary numbers × file lengths {0,1,10,65536,65537,70000}, and If-Match / \
-If-None-Match / If-(Un)Modified-Since combinations; a case is non-trivial if parse_path returned a non-empty path or the \
+If-None-Match / If-(Un)Modified-Since combinations; (T) NamedFile::open + into_response with the file truncated before the body is read; a case is non-trivial if parse_path returned a non-empty path or the \
 service answered with file bytes, a listing, a redirect, 304, 412 or 416; distinct = distinct (case, output) hashes";
 
 /// (relative path, file id (0 = directory), length)
@@ -70,8 +70,17 @@ const OUTSIDE: &[(&str, usize, usize)] = &[("canary.txt", 90, 16), ("root2/f10",
 
 const T0: u64 = 1_600_000_000;
 
+/// pseudo-random but reproducible file content (same formula in Drv/C16.lean); different ids
+/// give unrelated byte sequences, so that a body identifies the file it came from
 fn content(id: usize, len: usize) -> Vec<u8> {
-    (0..len).map(|i| ((i * 7 + id * 13 + (i / 251) * 3) % 256) as u8).collect()
+    (0..len)
+        .map(|i| {
+            let x = ((i as u64 + 1) * 2654435761 + id as u64 * 1013904223) % 4294967296;
+            let x = x ^ (x >> 15);
+            let x = (x * 2246822519) % 4294967296;
+            (x >> 24) as u8
+        })
+        .collect()
 }
 
 fn cksum(b: &[u8]) -> u64 {
@@ -88,6 +97,21 @@ static TREE_SEQ: AtomicUsize = AtomicUsize::new(0);
 impl TempTree {
     fn new() -> TempTree {
         let n = TREE_SEQ.fetch_add(1, Ordering::SeqCst);
+        // remove trees left behind by a run that was killed (owner pid no longer alive)
+        static STALE: std::sync::Once = std::sync::Once::new();
+        STALE.call_once(|| {
+            if let Ok(rd) = fs::read_dir(std::env::temp_dir()) {
+                for e in rd.flatten() {
+                    let name = e.file_name().to_string_lossy().into_owned();
+                    if let Some(rest) = name.strip_prefix("vh-c16-") {
+                        let pid = rest.split('-').next().unwrap_or("");
+                        if !pid.is_empty() && pid.bytes().all(|b| b.is_ascii_digit()) && !Path::new("/proc").join(pid).exists() {
+                            let _ = fs::remove_dir_all(e.path());
+                        }
+                    }
+                }
+            }
+        });
         let base = std::env::temp_dir().join(format!("vh-c16-{}-{}", std::process::id(), n));
         let _ = fs::remove_dir_all(&base);
         let root = base.join("root");
@@ -270,7 +294,7 @@ struct Answer {
 }
 
 fn build_files(root: &Path, flags: &str) -> Files {
-    let mut f = Files::new("/", root);
+    let mut f = Files::new(if flags.contains('m') { "/s" } else { "/" }, root);
     for c in flags.chars() {
         f = match c {
             'h' => f.use_hidden_files(),
@@ -518,7 +542,12 @@ fn judge(_line: &str, a: &Answer, range: Option<&[u8]>, conditional: bool) -> Ca
     }
     // bytes of a file outside the root must never appear in any answer
     for (id, c) in &outside {
-        if !a.body.is_empty() && (a.body == *c || (a.body.len() >= 4 && c.windows(a.body.len()).any(|w| w == &a.body[..]) && st == 206)) {
+        let whole = !a.body.is_empty() && a.body == *c;
+        let part = st == 206
+            && cr.as_deref().and_then(parse_content_range).map(|(f, l, t)| {
+                t == c.len() as u64 && f <= l && (l as usize) < c.len() && c[f as usize..=l as usize] == a.body[..]
+            }).unwrap_or(false);
+        if whole || part {
             fail("served-outside-root", format!("body equals bytes of outside file #{}", id));
         }
     }
@@ -659,10 +688,119 @@ fn judge(_line: &str, a: &Answer, range: Option<&[u8]>, conditional: bool) -> Ca
     r
 }
 
+/// `T len=<n> cut=<k> [r=<hex>]`: the file shrinks between `into_response` and the body read
+fn run_t(line: &str) -> CaseResult {
+    let bad = || {
+        let mut r = CaseResult::ok("badcase".into()).tag("badcase");
+        r.nontrivial = false;
+        r
+    };
+    let len: usize = kv(line, "len").and_then(|v| v.parse().ok()).unwrap_or(0);
+    let cut: usize = kv(line, "cut").and_then(|v| v.parse().ok()).unwrap_or(0);
+    if len > 200000 || cut > len {
+        return bad();
+    }
+    let range: Option<Vec<u8>> = match kv(line, "r") {
+        None => None,
+        Some(h) => match unhex(h) {
+            Some(b) => Some(b),
+            None => return bad(),
+        },
+    };
+    let range_hv = match &range {
+        Some(r) => match HeaderValue::from_bytes(r) {
+            Ok(v) => Some(v),
+            Err(_) => return bad(),
+        },
+        None => None,
+    };
+    let data = content(50, len);
+    with_tree(|tree| {
+        static SEQ: AtomicUsize = AtomicUsize::new(0);
+        let path = tree.base.join(format!("t-{}.bin", SEQ.fetch_add(1, Ordering::SeqCst)));
+        fs::write(&path, &data).unwrap();
+        let a = crate::common::block_on_system(async {
+            let mut req = TestRequest::default();
+            if let Some(v) = &range_hv {
+                req = req.insert_header((header::RANGE, v.clone()));
+            }
+            let req = req.to_http_request();
+            let nf = actix_files::NamedFile::open(&path).unwrap();
+            let res = nf.into_response(&req);
+            fs::OpenOptions::new().write(true).open(&path).unwrap().set_len(cut as u64).unwrap();
+            let status = res.status();
+            let headers = res.headers().clone();
+            let mut body = res.into_body();
+            let size = body.size();
+            let mut got = Vec::new();
+            let mut chunks = Vec::new();
+            let mut body_err = false;
+            loop {
+                match std::future::poll_fn(|cx| Pin::new(&mut body).poll_next(cx)).await {
+                    Some(Ok(b)) => {
+                        chunks.push(b.len());
+                        got.extend_from_slice(&b);
+                    }
+                    Some(Err(_)) => {
+                        body_err = true;
+                        break;
+                    }
+                    None => break,
+                }
+            }
+            Answer { status, headers, size, body: got, chunks, body_err }
+        });
+        let _ = fs::remove_file(&path);
+        let st = a.status.as_u16();
+        let cr = hv(&a, header::CONTENT_RANGE);
+        let sz = match a.size {
+            BodySize::None => "none".to_owned(),
+            BodySize::Sized(n) => n.to_string(),
+            BodySize::Stream => "stream".to_owned(),
+        };
+        let ch = if a.chunks.is_empty() { "-".to_owned() } else { a.chunks.iter().map(|c| c.to_string()).collect::<Vec<_>>().join("+") };
+        let out = format!(
+            "{} e=- cr={} sz={} body={}:{} ch={}{}",
+            st,
+            cr.as_deref().map(|s| s.replace(' ', "_")).unwrap_or_else(|| "-".into()),
+            sz,
+            a.body.len(),
+            cksum(&a.body),
+            ch,
+            if a.body_err { " bodyerr" } else { "" }
+        );
+        let mut r = CaseResult::ok(out).tag(&format!("T:{}", st));
+        // the property's words: the announced window, or an error — never a silently short or wrong body
+        let window = match st {
+            200 => Some((0usize, len)),
+            206 => cr.as_deref().and_then(parse_content_range).map(|(f, l, _)| (f as usize, l as usize + 1)),
+            _ => None,
+        };
+        if let Some((from, to)) = window {
+            if to > len || from > to {
+                r = r.fail("impossible-range", format!("window {}..{} of {} bytes", from, to, len));
+            } else if !data[from..to].starts_with(&a.body) {
+                r = r.fail("range-body-mismatch", format!("body is not a prefix of file[{}..{}]", from, to));
+            } else if a.body.len() < to - from && !a.body_err {
+                r = r.fail("short-body-without-error", format!("{} of {} bytes and a clean end", a.body.len(), to - from));
+            } else if a.body.len() == to - from && a.body_err {
+                r = r.fail("body-stream-error", "complete body followed by an error".into());
+            } else if to <= cut && a.body_err {
+                r = r.fail("body-stream-error", "error although the window is inside the truncated file".into());
+            }
+            if a.body_err {
+                r.tags.push("T:bodyerr".into());
+            }
+        }
+        r
+    })
+}
+
 fn run(line: &str) -> CaseResult {
     match line.split_ascii_whitespace().next() {
         Some("P") => run_p(line),
         Some("S") => run_s(line),
+        Some("T") => run_t(line),
         _ => CaseResult::ok("badcase".into()),
     }
 }
@@ -814,6 +952,23 @@ fn gen(ctx: &Ctx) -> Vec<String> {
         let m = if rng.chance(1, 12) { *rng.pick(&["HEAD", "POST", "PUT", "DELETE"]) } else { "GET" };
         cases.push(s_case(&flags, m, &u, ""));
     }
+    // mounted below "/s": the unprocessed tail is what parse_path sees
+    for _ in 0..ctx.budget(400) {
+        let n = rng.range(0, 5);
+        let mut u = String::from(*rng.pick(&["/s", "/s/", "/s/", "/s/", "/sx", "/", "/s%2f", "/%73/", "/S/", "/s//", "/s/../s/"]));
+        for _ in 0..n {
+            u.push_str(*rng.pick(S_TOKENS));
+            if rng.chance(1, 2) {
+                u.push('/');
+            }
+        }
+        let mut flags = flags_pick(&mut rng, &['h', 'i', 'l']);
+        if flags == "-" {
+            flags.clear();
+        }
+        flags.push('m');
+        cases.push(s_case(&flags, "GET", &u, ""));
+    }
     // redirect flag only with header-safe paths
     for _ in 0..ctx.budget(300) {
         let n = rng.range(1, 5);
@@ -892,6 +1047,57 @@ fn gen(ctx: &Ctx) -> Vec<String> {
         let prefix = if rng.chance(1, 20) { *rng.pick(&["Bytes=", "bytes= ", "bytes", ""]) } else { "bytes=" };
         let r = format!("{}{}", prefix, specs.join(","));
         cases.push(s_case(if rng.chance(1, 3) { "s" } else { "-" }, "GET", &format!("/{}", f), &format!("r={}", hex(r.as_bytes()))));
+    }
+    // multi-chunk windows on the large files: both ends anywhere, biased to the 64 KiB boundary
+    for _ in 0..ctx.budget(250) {
+        let &(f, len) = rng.pick(&RANGE_FILES[3..]);
+        let mut pt = |rng: &mut Rng| -> u64 {
+            match rng.below(4) {
+                0 => rng.below(len as usize + 2) as u64,
+                1 => 65536 - 2 + rng.below(5) as u64,
+                2 => len.saturating_sub(rng.below(4) as u64),
+                _ => rng.below(70) as u64,
+            }
+        };
+        let (a, b) = (pt(&mut rng), pt(&mut rng));
+        let r = match rng.below(5) {
+            0 => format!("bytes={}-", a),
+            1 => format!("bytes=-{}", a),
+            _ => format!("bytes={}-{}", a.min(b), a.max(b)),
+        };
+        cases.push(s_case(if rng.chance(1, 2) { "s" } else { "-" }, "GET", &format!("/{}", f), &format!("r={}", hex(r.as_bytes()))));
+    }
+    // windows longer than one chunk that end before the end of the file (second read must be short)
+    for _ in 0..ctx.budget(60) {
+        let size = 65536 + 1 + rng.below(3000) as u64;
+        let start = rng.below((70000 - size) as usize) as u64;
+        let r = format!("bytes={}-{}", start, start + size - 1);
+        cases.push(s_case(if rng.chance(1, 2) { "s" } else { "-" }, "GET", "/big.bin", &format!("r={}", hex(r.as_bytes()))));
+        let len = 140000u64;
+        let size = 65536 + 1 + rng.below(70000) as u64;
+        let start = rng.below((len - size) as usize) as u64;
+        let r = format!("bytes={}-{}", start, start + size - 1);
+        cases.push(format!("T len={} cut={} r={}", len, len, hex(r.as_bytes())));
+    }
+    // T: file truncated between into_response and the body read
+    for &(len, cut) in &[(10usize, 10usize), (10, 9), (10, 5), (10, 0), (1, 0), (0, 0), (70000, 70000), (70000, 69999), (70000, 65537), (70000, 65536), (70000, 65535), (70000, 1), (70000, 0), (131072, 65536), (131073, 131072)] {
+        cases.push(format!("T len={} cut={}", len, cut));
+        for r in ["bytes=2-5", "bytes=0-", "bytes=-3", "bytes=65530-65540", "bytes=-65537"] {
+            cases.push(format!("T len={} cut={} r={}", len, cut, hex(r.as_bytes())));
+        }
+    }
+    for _ in 0..ctx.budget(200) {
+        let len = *rng.pick(&[0usize, 1, 10, 1000, 65536, 65537, 70000, 140000]);
+        let cut = if rng.chance(1, 4) { len } else { rng.below(len + 1) };
+        let a = rng.below(len + 2);
+        let b = rng.below(len + 2);
+        let r = match rng.below(4) {
+            0 => String::new(),
+            1 => format!("r={}", hex(format!("bytes={}-", a).as_bytes())),
+            2 => format!("r={}", hex(format!("bytes=-{}", a).as_bytes())),
+            _ => format!("r={}", hex(format!("bytes={}-{}", a.min(b), a.max(b)).as_bytes())),
+        };
+        cases.push(format!("T len={} cut={} {}", len, cut, r).trim_end().to_owned());
     }
     // Range values that are not visible ASCII
     for r in [&b"bytes=0-1\xff"[..], &b"\x80"[..], &b"bytes=\xc3\xa9"[..]] {
